@@ -80,6 +80,20 @@ func (t *runTarget) Evaluate(engine runner.Engine) error {
 		}
 	}
 
+	// A recorded dependency that is no longer listed (a source dropped from the target's list, a
+	// file that no longer matches its glob) changes what the target sees, too.
+	var dropped []string
+	for label := range info.Dependencies {
+		if _, ok := depData[label]; !ok {
+			dropped = append(dropped, label)
+		}
+	}
+	if len(dropped) != 0 {
+		sort.Strings(dropped)
+		outOfDateDeps = append(outOfDateDeps, dropped...)
+		depsUpToDate = false
+	}
+
 	// Check whether the target is up-to-date.
 	upToDate, reason, diff, err := t.target.upToDate()
 	if err != nil {
